@@ -58,7 +58,8 @@ static CanRec gen_can_frame(Rng &r, bool fd) {
     if (fd) {
         static const uint8_t fdlens[] = {0, 1, 2, 3, 4, 5, 6, 7, 8, 12, 16, 20, 24, 32, 48, 64};
         c.len = r.chance(0.75) ? fdlens[r.below(16)] : (uint8_t)r.below(65);
-        c.flags = CANFD_FDF | (r.coin() ? CANFD_BRS : 0) | (r.chance(0.4) ? CANFD_ESI : 0);
+        // (kernels before 6.1 and many senders deliver FD frames without CANFD_FDF in the flags byte: the frame size says what it is)
+        c.flags = (r.chance(0.85) ? CANFD_FDF : 0) | (r.coin() ? CANFD_BRS : 0) | (r.chance(0.4) ? CANFD_ESI : 0);
     } else {
         c.len = (uint8_t)(r.chance(0.25) ? 8 : r.below(9));
         if (r.chance(0.2)) c.can_id |= CAN_RTR_FLAG;
@@ -137,6 +138,9 @@ static std::string gen_tunnel(uint64_t seed, uint64_t idx, bool thorough) {
     // a few runs are long: thousands of packets between the same two processes (counters, sequence numbers, accumulated state)
     bool long_run = idx % 397 == 137 || (thorough && idx % 53 == 37);
     if (long_run) { nframes = (int)r.range(4300, thorough ? 9000 : 5200); count = r.chance(0.7) ? 1 : 2; }
+    // thorough tier: a handful of runs carry more than 2^16 frames, at a frames-per-packet count that does not divide 2^16
+    bool very_long = thorough && idx % 4001 == 2000;
+    if (very_long) { long_run = true; nframes = (int)r.range(66000, 72000); count = (int[]){1, 3, 5, 6, 7, 9}[r.below(6)]; }
     uint64_t lat_lo = r.range(1000, 100000), lat_hi = lat_lo + r.range(0, 2000000);
     size_t qcap = faults ? (size_t[]){2, 4, 8, 64, 4096}[r.below(5)] : 4096;
     uint64_t t = 1000000, scale = (uint64_t[]){20000, 200000, 2000000}[r.below(3)];
@@ -151,7 +155,7 @@ static std::string gen_tunnel(uint64_t seed, uint64_t idx, bool thorough) {
         if (repeats && i > 0 && r.chance(0.5)) {
             c = prev_frame;
             if (r.chance(0.4)) {  // same identifier and length again, other flags and/or content
-                if (fd) c.flags = CANFD_FDF | (r.coin() ? CANFD_BRS : 0) | (r.coin() ? CANFD_ESI : 0);
+                if (fd) c.flags = (c.flags & CANFD_FDF) | (r.coin() ? CANFD_BRS : 0) | (r.coin() ? CANFD_ESI : 0);
                 else if (r.chance(0.3)) c.can_id ^= CAN_RTR_FLAG;
                 if (r.coin()) { auto d = rnd_bytes(r, c.len, 1); memcpy(c.data, d.data(), c.len); }
             }
@@ -182,6 +186,14 @@ static std::string gen_tunnel(uint64_t seed, uint64_t idx, bool thorough) {
         for (int i = 0; i < k; i++) {
             size_t fi = long_run ? (size_t)r.range(4200, nframes - 1) : (size_t)r.below(frame_t.size());
             o.line(strf("restart t=%llu who=%s", (unsigned long long)(frame_t[std::min(fi, frame_t.size() - 1)] + r.range(0, scale)), (i == 0 ? r.chance(0.7) : false) ? "talker" : "listener"));
+        }
+    }
+    // the clock of one of the two machines is stepped (NTP/PTP correction, settimeofday): forwards or backwards, once or twice
+    if (r.chance(0.1)) {
+        int k = (int)r.range(1, 2);
+        for (int i = 0; i < k; i++) {
+            int64_t d = (int64_t)(uint64_t[]){1000000, 20000000, 1000000000, 10000000000ULL}[r.below(4)] + (int64_t)r.range(0, 999999);
+            o.line(strf("clkjump t=%llu node=%d delta=%lld", (unsigned long long)r.range(1000000, t), (int)r.below(2), (long long)(r.coin() ? d : -d)));
         }
     }
     if (faults) {
@@ -550,8 +562,13 @@ static std::string gen_c18(uint64_t seed, uint64_t idx, bool thorough) {
     o.line(strf("plan v1 engine=net prop=C18 seed=0x%llx idx=%llu", (unsigned long long)seed, (unsigned long long)idx));
     // real CAN controllers queue a handful of frames for transmission; a burst finds the queue full (write fails with ENOBUFS)
     int cantxq = (scen == "can" && !fault_free && r.chance(0.3)) ? (int[]){1, 4, 10}[r.below(3)] : 0;
-    o.line(strf("cfg scen=%s udp=%d fd=%d tscf=%d count=%d mtt=%d cantxq=%d o0=%d ethpad=%d sched=%s lat=%llu:%llu cost=%llu:%llu qcap=%zu tend=%llu drain=%llu quiet=%llu rseed=0x%llx skew0=%lld skew1=%lld skew2=%lld",
-                scen.c_str(), udp, fd, tscf, count, mtt, cantxq, (int)r.chance(0.35), (int)(!udp && r.chance(0.3)), sched_str(r).c_str(), (unsigned long long)r.range(1000, 50000),
+    int lstack = r.chance(0.25) ? (int[]){128, 192, 256}[r.below(3)] : 0;
+    // "backlog" flavour (AAF/CVF): an early datagram with a presentation time seconds ahead blocks the FIFO queue and dense valid traffic
+    // piles up behind it, all of it due at once when the head finally fires
+    bool backlog = (scen == "aaf" || scen == "cvf") && !fault_free && r.chance(0.12);
+    if (backlog) lstack = 128;
+    o.line(strf("cfg scen=%s udp=%d fd=%d tscf=%d count=%d mtt=%d cantxq=%d lstack=%d o0=%d ethpad=%d sched=%s lat=%llu:%llu cost=%llu:%llu qcap=%zu tend=%llu drain=%llu quiet=%llu rseed=0x%llx skew0=%lld skew1=%lld skew2=%lld",
+                scen.c_str(), udp, fd, tscf, count, mtt, cantxq, lstack, (int)r.chance(0.35), (int)(!udp && r.chance(0.3)), sched_str(r).c_str(), (unsigned long long)r.range(1000, 50000),
                 (unsigned long long)r.range(50000, 1000000), (unsigned long long)r.range(50, 500), (unsigned long long)r.range(500, 20000), qcap,
                 (unsigned long long)tend, (unsigned long long)drain, (unsigned long long)t2, (unsigned long long)rseed, (long long)r.range(0, 20000000) - 10000000,
                 (long long)r.range(0, 20000000) - 10000000, (long long)r.range(0, 20000000) - 10000000));
@@ -569,10 +586,10 @@ static std::string gen_c18(uint64_t seed, uint64_t idx, bool thorough) {
     } else if (scen == "cvf") {
         uint64_t t = 1000000;
         int n = 0;
-        while (t < t2 && n < 120) {
-            auto nal = h264_nal(r, r.chance(0.7) ? r.range(4, 200) : r.range(4, 1400));
+        while (backlog ? n < 900 : (t < t2 && n < 120)) {
+            auto nal = h264_nal(r, (backlog || r.chance(0.7)) ? r.range(4, 200) : r.range(4, 1400));
             o.line(strf("in t=%llu node=0 data=%s", (unsigned long long)t, sim::hexstr(nal.data(), nal.size()).c_str()));
-            n++; t += gap(r, unit) + 1;
+            n++; t += backlog ? r.range(1000, 20000) : gap(r, unit) + 1;
         }
         t = t2 + unit;
         for (int i = 0; i < 6; i++) {
@@ -584,11 +601,11 @@ static std::string gen_c18(uint64_t seed, uint64_t idx, bool thorough) {
     } else if (scen == "aaf") {
         uint64_t t = 1000000;
         int n = 0;
-        while (t < t2 && n < 250) {
+        while (backlog ? n < 1500 : (t < t2 && n < 250)) {
             int k = (int)r.range(1, 4);
             auto pcm = rnd_bytes(r, 4 * k);
             o.line(strf("in t=%llu node=0 data=%s", (unsigned long long)t, sim::hexstr(pcm.data(), pcm.size()).c_str()));
-            n += k; t += gap(r, unit) + 1;
+            n += k; t += backlog ? r.range(1000, 20000) : gap(r, unit) + 1;
         }
         t = t2 + unit;
         for (int i = 0; i < 6; i++) {
@@ -603,6 +620,8 @@ static std::string gen_c18(uint64_t seed, uint64_t idx, bool thorough) {
         talker_dgs = (int)(t3 / 20000000ULL) + 2;
     }
 
+    if (backlog)  // move the presentation time of one of the first datagrams 1..4 s ahead
+        o.line(strf("mut node=0 dg=%d kind=add a=96 b=32 c=%llu", (int)r.below(3), (unsigned long long)r.range(1000000000ULL, 4000000000ULL)));
     if (!fault_free) {
         // ---- swarm: which fault kinds are enabled in this run
         bool en_synth = r.chance(0.8), en_mut = r.chance(0.6), en_net = r.chance(0.4), en_stall = r.chance(0.3);
